@@ -23,7 +23,7 @@ empty string is `-`.
   frag-fmt (p <term>+)         → s:<hex>   model of format_program on the fragment (Core/Text/Fragment)
   frag-print <width> (p <term>+) → s:<hex>   print (programDoc terms) width
   frag-parse <hex-source>      → ok (pp (p <term>+)*) <hex-rest> | err <offset-from-end> <code> | out   (programP)
-      <term> ::= (l <hex-name>) | (i <decimal>) | (b <hex-bytes | ->) | (t <hex-tuple-name | _> <field>*)    <field> ::= (u <term>) | (n <hex-label> <term>)
+      <term> ::= (l <hex-name>) | (s <hex-string-value>) | (i <decimal>) | (b <hex-bytes | ->) | (t <hex-tuple-name | _> <field>*)    <field> ::= (u <term>) | (n <hex-label> <term>)
 -/
 open QM QM.Text
 
@@ -132,6 +132,7 @@ def renderOpt : Option (List Char) → String
 mutual
 partial def fragOfSx : Sx → Option QM.Frag.T
   | .list [.atom "l", .atom h] => (hexToChars h).map .leaf
+  | .list [.atom "s", .atom h] => (hexToChars h).map .str
   | .list [.atom "i", .atom d] => d.toInt?.map .int
   | .list [.atom "b", .atom h] =>
     if h = "-" then some (.bin []) else (QM.parseHexNat h.toList).map .bin
@@ -152,6 +153,7 @@ end
 mutual
 partial def fragToSx : QM.Frag.T → String
   | .leaf n => s!"(l {charsToHex n})"
+  | .str v => s!"(s {charsToHex v})"
   | .int i => s!"(i {i})"
   | .bin bs => "(b " ++ (if bs.isEmpty then "-" else String.ofList (QM.Frag.hexText bs)) ++ ")"
   | .tup name fs =>
